@@ -252,9 +252,11 @@ def check_emit_regeneration(repo: Repo, rep, rule: str = "R11.1") -> None:
         un = [n for n in cfg.nodes if n.ast is ucalls[0]]
         gs = [cfg.nodes[d] for d in dom[un[0].id] if cfg.nodes[d].kind == "test"] if un else []
         extra = []
+        from sa.match import Locals as _Locals, conjuncts as _conjuncts
+
+        EL = _Locals(emit.node)
         for x in gs:
-            conj = x.ast.values if isinstance(x.ast, ast.BoolOp) and isinstance(x.ast.op, ast.And) else [x.ast]
-            for cj in conj:
+            for cj in _conjuncts(x.ast, EL, stop=tuple(EL.params)):
                 if "_is_shared_core" in norm(cj) or (isinstance(cj, ast.Name) and cj.id in emit.params):
                     continue
                 extra.append(norm(cj))
